@@ -56,6 +56,15 @@ CLAIMED = {
          'injectivity of Timer::seq',
          'The epoch mechanism and the arm/re-arm structure are decided on every path.',
          COMMON_NOTE + 'paths leaving a handler through `?` on a user codec error are outside the claim.', '4/C13'),
+ 'C14': ('scan-summary extraction from MIR: the Option-valued search of Members::next is normalised, through its closures and '
+         'iterator adaptors, to a list of index segments with the is_active predicate and compared with the cyclic '
+         'first-active-at-or-after-the-cursor scan; path rules on the cursor (reset iff past the end, advance by exactly one, wrap '
+         'forces reshuffle); who-may-write / who-may-reorder frame rules on Members.cursor and Members.inner; one next() call and '
+         'one Ping per probe round (C12-R5 / C09-R3 re-run)',
+         'The structural half of the property: exactly one ping per round, to an active record that never bears the own address, '
+         'and the scan/cursor mechanism that the 2n-1 lemma (DESIGN.md 10.7) takes as hypotheses - decided for every layout, seed '
+         'and cursor at once. The number 2n-1 is not replayed over runs.',
+         COMMON_NOTE + 'SliceRandom::shuffle permutes; core iterator adaptors behave as documented; the lemma from mechanism to bound is a written argument.', '10.7'),
  'C15': ('per-entry bookkeeping rules inside Broadcasts (retain-before-push, control-equivalence of write/count/decrement, '
          'push-back iff remaining_tx > 0, append post-dominates), sibling cross-check of fill and fill_with_len_prefix, '
          'Entry::cmp table, who-consumes / who-enqueues guards',
@@ -88,7 +97,6 @@ NOT_APPLICABLE = {
  'C03': 'Detection-time bound (2n+1)*probe_period + suspect_to_down_after over all crash points is a real-time liveness claim about composed instances; not decidable from code shape (mechanism clauses decided under C12-R5, C11-R4, C10-R4).',
  'C04': 'For-all-fault-points convergence claim over schedules (single lost datagram never leads to Down; all Alive again within a bound); only its mechanism clauses are static and they are decided under C11/C10.',
  'C05': 'Partition healing within a bounded number of announce-to-down periods for all split shapes is a multi-instance temporal property (rejoin-or-defunct and Announce-by-address are decided under C10-R4, C17-R3).',
- 'C14': 'The 2n-1 window bound for every shuffle/seed/arrangement of Down records is a combinatorial statement about cursor/shuffle dynamics over runtime sequences; a structural proxy would be brittle.',
 }
 
 PENDING = {}
